@@ -19,10 +19,10 @@ PROPS = ["C01", "C02", "C03", "C05", "C06", "C07", "C08", "C09", "C10", "C11", "
 
 # runs per tier (sized for ~30-45 s quick / ~8-10 min thorough on 16 cores)
 BUDGET = {
-    "C01": (9000, 200000), "C02": (9000, 200000), "C03": (6000, 120000),
-    "C05": (16000, 400000), "C06": (16000, 400000), "C07": (16000, 300000),
-    "C08": (7000, 150000), "C09": (9000, 200000), "C10": (8000, 150000),
-    "C11": (3000, 50000), "C16": (2500, 40000),
+    "C01": (6000, 120000), "C02": (8000, 160000), "C03": (5000, 100000),
+    "C05": (10000, 200000), "C06": (8000, 160000), "C07": (16000, 320000),
+    "C08": (5000, 100000), "C09": (3000, 60000), "C10": (6000, 120000),
+    "C11": (2000, 40000), "C16": (1600, 32000),
 }
 WALL_CAP = {"quick": 150.0, "thorough": 1500.0}
 
